@@ -15,7 +15,8 @@ PROPERTY = 'C16'
 RULE = ('(streams) momentum, SMA and volatility signals built over 1-5 assets with confusable names (A, AB, A1, A_1, '
         'A_1_2, Z9, SPY, SP) and 1-4 lookbacks from 1..30 (incl. pairs like 2 and 12), fed positive price streams '
         '(prices down to 0.01, repeats) in random interleaving through Signal.append and through '
-        'SignalsCollection.update with a stub handler, static and dynamic universes; every (signal, asset, lookback) '
+        'SignalsCollection.update with a stub handler, static and dynamic universes (optionally the volatility signal '
+        'on a static universe while momentum/SMA follow the dynamic one); every (signal, asset, lookback) '
         'is queried after every step. (sessions) full backtests with all three signals in one collection, static and '
         'dynamic universes (entry before the start / on a close / mid-range / after the end), dense and gappy markets, '
         'every rebalance kind, with and without burn-in, a recording alpha model evaluating every signal at each '
